@@ -139,5 +139,95 @@ Proof.
   all: try (intros; try destruct (rel_after_send cf); reflexivity).
   all: repeat match goal with H : pc _ _ = _ |- _ => rewrite H in * end; cbn [in_end] in *;
        intros Hd; try (specialize (Dh Hd)); try congruence; auto.
-  all: try (lapply (D (n s)); [|assumption]).
+  all: try (cbn in Hd; discriminate Hd).
+Qed.
+
+Lemma deadend_reachable : forall cf s, reachable cf s -> DeadEnd s.
+Proof.
+  intros cf. apply reachable_ind'.
+  - intros h. unfold init; simpl. discriminate.
+  - intros s a s' _ D H. eapply deadend_step; eauto.
+Qed.
+
+(* NO GOROUTINE LEFT: a dead coroutine's goroutine has passed the status write of end: it is running
+   the remaining straight-line section of end (handlers, bookkeeping, the hand-off send, the deferred
+   unlocks) or has terminated; it never again waits for a resume. *)
+Theorem no_goroutine_left : forall cf s h, reachable cf s -> status (th s h) = Dead ->
+  in_end (pc s h) = true /\ waiting (pc s h) = false.
+Proof.
+  intros cf s h R Hd. pose proof (deadend_reachable _ _ R h Hd) as E. split; auto.
+  destruct (pc s h); simpl in *; congruence.
+Qed.
+
+(* ---- legal status transitions, one step *)
+Theorem status_table : forall cf s a s' t, step cf s a = Some s' ->
+  status (th s' t) = status (th s t) \/
+  (exists k v, pc s (who a) = R4 k t v /\ status (th s' t) = OK) \/
+  (exists c v, pc s (who a) = Y4 c v /\ t = who a /\ status (th s' t) = Suspended) \/
+  (exists c m, pc s (who a) = E4 c m /\ t = who a /\ status (th s' t) = Dead) \/
+  (pc s (who a) = Lua /\ t = n s /\ n s' = S (n s) /\ status (th s' t) = Suspended).
+Proof.
+  intros cf s [g l] s' t H. cbn [who]. step_cases H Pg; brk H; simp; ucase; simp; eauto 8.
+  all: try (right; right; right; right; solve [auto]).
+  right; right; right; left; eauto.
+Qed.
+
+
+
+(* only a Suspended thread can be resumed or closed: the status test of Resume/Close (R2) sends
+   every other case back to Lua with an error and changes no status, caller or channel *)
+Theorem resume_guard : forall cf s g l s' k t v, pc s g = R2 k t v -> step cf s (mkAct g l) = Some s' ->
+  (status (th s t) = Suspended /\ pc s' g = R3 k t v /\ th s' = th s) \/
+  (status (th s t) <> Suspended /\ (pc s' g = Lua \/ pc s' g = Panicked) /\
+   forall h, status (th s' h) = status (th s h) /\ caller (th s' h) = caller (th s h) /\
+             closed (th s' h) = closed (th s h)).
+Proof.
+  intros cf s g l s' k t v P H. step_cases H Pg; brk H; try congruence.
+  all: inversion P; subst; simp.
+  - left. destruct (status (th s t)); try discriminate. rewrite upd_eq. auto.
+  - right. split; [destruct (status (th s t)); try discriminate; congruence|].
+    rewrite upd_eq. split; auto. intros h. ucase; simp; auto.
+  - right. split; [destruct (status (th s t)); try discriminate; congruence|].
+    rewrite upd_eq. split; auto.
+Qed.
+
+(* EXACT TRANSFER: a rendezvous moves the sender's message, unchanged, to exactly the thread the
+   operation names — the target of Resume/Close, the recorded caller for Yield/end — and to nobody else:
+   the receiver leaves its receive, every other goroutine keeps its pc; the kind of continuation is
+   determined by the message (values/error -> Lua continues; termination -> forwarded; close -> end). *)
+Definition sends_to (p : pcT) : option (nat * msg + nat) :=
+  match p with
+  | R7 Res t v => Some (inl (t, MVal v))
+  | R7 Cls t _ => Some (inr t)
+  | Y7 c v => Some (inl (c, MVal v))
+  | E7 c m => Some (inl (c, m))
+  | _ => None
+  end.
+
+Theorem values_transferred_exactly : forall cf s g s', step cf s (mkAct g LRdv) = Some s' ->
+  pc s' g <> Panicked ->
+  exists r, (sends_to (pc s g) = Some (inr r) \/ exists m, sends_to (pc s g) = Some (inl (r, m))) /\
+    r <> g /\ waiting (pc s r) = true /\ waiting (pc s' r) = false /\
+    (forall m, sends_to (pc s g) = Some (inl (r, m)) ->
+       pc s' r = match m with MTerm => after_recv r MTerm | _ => Lua end) /\
+    (sends_to (pc s g) = Some (inr r) -> pc s' r = E0 (MVal 0)) /\
+    (forall h, h <> g -> h <> r -> pc s' h = pc s h) /\ th s' = th s.
+Proof.
+  intros cf s g s' H NP. step_cases H Pg; brk H; simp; try (rewrite upd_eq in NP; congruence).
+  all: match goal with Pg : pc ?s0 ?g0 = _, Hp : pc ?s0 ?r = _ |- _ =>
+         tryif constr_eq r g0 then fail else
+         (exists r;
+          assert (RG : forall r p, pc s0 r = p -> waiting p = true -> waiting (pc s0 g0) = false -> r <> g0)
+            by (intros r0 p0 E1 E2 E3 E4; subst; congruence)) end.
+  all: repeat split; rewrite ?Pg; cbn [sends_to]; eauto.
+  all: try (eapply RG; eauto; rewrite Pg; reflexivity).
+  all: try (repeat match goal with H : pc _ _ = _ |- _ => rewrite H end; reflexivity).
+  all: try (rewrite upd_eq; try destruct k; try destruct m; try reflexivity; unfold after_recv; try destruct (_ =? 0); reflexivity).
+  all: try (intros; rewrite !upd_neq by auto; reflexivity).
+  all: try (destruct k; cbn [sends_to]; eauto).
+  all: try (intros m0 E; destruct k; inversion E; subst; rewrite upd_eq; reflexivity).
+  all: try (intros E; destruct k; inversion E; subst; rewrite upd_eq; reflexivity).
+  all: try (intros m0 E; inversion E; subst; rewrite upd_eq; try destruct m0; reflexivity).
+  all: try discriminate.
+  all: intros _; apply upd_eq.
 Qed.
